@@ -710,8 +710,8 @@ class Prop(fw.PropBase):
     def shrink(self, c, key):
         """keep one pair / drop pairs / drop strategies while the same violation remains (a few batched rounds)"""
         import time
-        if c.get('reader_only') or not c.get('meta'):
-            return None
+        if c.get('reader_only') or not c.get('meta') or c.get('spec_only') or len(c['meta']) > 64:
+            return None      # (a library that has to cross the prune threshold cannot be made smaller)
         cur, cur_r, cur_t = c, None, None
         for _round in range(5):
             if time.time() - self.t_search > 90:
